@@ -2,6 +2,7 @@ package directchannel
 
 import (
 	"context"
+	"encoding/binary"
 	"io"
 
 	"berty.tech/go-orbit-db/iface"
@@ -115,6 +116,23 @@ func VerifC12RawFrame() {
 		p := em.got[0].Payload
 		// the payload is a suffix-aligned slice of the stream after the length prefix
 		vstub.Assert(len(p) <= len(raw), "C12 emitted payload comes from the stream")
+	}
+	// reference: the stream is <uvarint length n><n bytes>; a frame is delivered if and
+	// only if the length prefix is well formed, within the limit, and ALL n bytes are
+	// there (a stream that ends early - cleanly or not - delivers nothing); then the
+	// payload is exactly those n bytes (C20: byte for byte, nothing the peer did not send)
+	n, k := binary.Uvarint(raw)
+	complete := k > 0 && n <= DelimitedReadMaxSize && uint64(len(raw)-k) >= n
+	if complete {
+		vstub.Cover("complete-frame")
+		vstub.Assert(len(em.got) == 1, "C20 a complete frame is delivered")
+		if len(em.got) == 1 {
+			vstub.Assert(string(em.got[0].Payload) == string(raw[k:k+int(n)]), "C20 the delivered payload is exactly the announced bytes")
+			vstub.Assert(em.got[0].Peer == peer.ID("mallory"), "C20 the payload is attributed to the remote peer of the stream")
+		}
+	} else {
+		vstub.Cover("incomplete-frame")
+		vstub.Assert(len(em.got) == 0, "C20/C12 a frame whose announced bytes did not all arrive (or whose length prefix is malformed or too large) delivers nothing")
 	}
 	// later traffic is not disturbed
 	em.got = nil
